@@ -7,7 +7,7 @@ namespace {
 struct Field { int obj; int bytes; };            // obj: index into the 5 mappable objects, -1 = dummy
 struct Chan { bool present = false, en = false, sync = false; uint32_t id = 0; std::vector<Field> f; bool pend = false; uint8_t buf[8]; int total = 0; };
 
-void case_impl(Ctx &c, bool resync) {
+void case_impl(Ctx &c, bool resync, bool bursts = false) {
   Sim s(c); World w(s);
   s.nodeid = (uint8_t)(1 + c.t.below(127));
   w.mandatory();
@@ -60,12 +60,25 @@ void case_impl(Ctx &c, bool resync) {
   };
   int mode = 2; bool registered = false; int syncs_seen_by_sync_rpdo = 0;
   uint32_t syncid = 0x80; int sync_rewrites = 0; SdoClient cl(s, w.req[0], w.rsp[0]);   // mode sync-id-rewritten: a client moves the SYNC identifier (1005h) while the node runs
-  int steps = 0; bool repeated_start = false;
+  int steps = 0; bool repeated_start = false; uint32_t burst_max = 0;
   while (!c.t.exhausted() && steps < 120) {
     steps++; c.ops++;
-    static const uint16_t W[5] = {50, 25, 12, 8, 5}, WR[6] = {50, 25, 12, 8, 5, 8};
-    uint32_t op = resync ? c.t.weighted(WR) : c.t.weighted(W);   // mode "random" keeps the alphabet the saved witnesses were recorded with
+    static const uint16_t W[5] = {50, 25, 12, 8, 5}, WR[6] = {50, 25, 12, 8, 5, 8}, WB[7] = {40, 25, 8, 8, 5, 0, 30};
+    uint32_t op = bursts ? c.t.weighted(WB) : resync ? c.t.weighted(WR) : c.t.weighted(W);   // mode "random" keeps the alphabet the saved witnesses were recorded with
     s.clear_tx();
+    if (op == 6) {        // mode frame-bursts: k frames for one valid RPDO with no SYNC in between; only the last one counts for a synchronous RPDO, each one is applied for an asynchronous one
+      std::vector<int> cand; for (int p = 0; p < 4; p++) if (ch[p].present && ch[p].en) { bool first = true; for (int q = 0; q < p; q++) if (ch[q].present && ch[q].en && ch[q].id == ch[p].id) first = false; if (first) cand.push_back(p); }
+      if (cand.empty()) continue;
+      if (mode != 3) { s.rx(Frame::mk(0, 2, {1, 0})); mode = 3; registered = true; for (auto &r : ch) r.pend = false; VLOG(c, "NMT -> mode 3"); compare("an NMT command"); s.clear_tx(); }
+      Chan &r = ch[cand[c.t.below((uint32_t)cand.size())]];
+      static const uint32_t MARK[6] = {255, 256, 257, 512, 768, 1024}; uint32_t kk = c.t.below(8);
+      uint32_t k = kk < 5 ? MARK[c.t.below(6)] + c.t.below(3) - 1 : kk == 5 ? 65535 + c.t.below(3) : 1 + c.t.below(600);
+      uint32_t seed = c.t.u32(); Frame f; f.id = r.id; f.dlc = 8;
+      for (uint32_t i = 0; i < k; i++) { for (int b = 0; b < 8; b++) { seed = seed * 1664525u + 1013904223u; f.d[b] = (uint8_t)(seed >> 24); } s.rx(f); s.clear_tx(); if (!r.sync) apply(r, f.d); }
+      if (r.sync) { memcpy(r.buf, f.d, 8); r.pend = true; }
+      VLOG(c, "burst of %u frames on %03X (%s), last %s", k, r.id, r.sync ? "synchronous: the last one is applied at the next SYNC" : "asynchronous", f.str().c_str());
+      burst_max = k > burst_max ? k : burst_max; compare("a burst of RPDO frames"); continue;
+    }
     if (op == 5) {        // the SYNC identifier is rewritten through SDO (the node is a SYNC consumer: any 11-bit identifier may be written at any time)
       if (mode == 4) continue;
       static const uint32_t SID[3] = {0x80, 0x90, 0x100}; uint32_t nid = SID[c.t.below(3)];
@@ -111,20 +124,23 @@ void case_impl(Ctx &c, bool resync) {
   }
   if (many_fields || has_dummy || syncs_seen_by_sync_rpdo >= 2) c.nontrivial = true;
   if (sync_rewrites) c.cls("sync-identifier-rewritten-at-run-time");
+  if (burst_max >= 256) c.cls("burst-of-256-or-more-frames-between-two-syncs"); if (burst_max >= 65536) c.cls("burst-of-65536-or-more-frames");
   if (has_dummy) c.cls("mapping-with-dummy"); if (many_fields) c.cls("two-or-more-fields"); if (syncs_seen_by_sync_rpdo >= 2) c.cls("sync-rpdo-saw-two-syncs");
 }
 
 void one_case(Ctx &c) { case_impl(c, false); }
 void resync_case(Ctx &c) { case_impl(c, true); }
+void burst_case(Ctx &c) { case_impl(c, false, true); }
 
 Registrar reg(Prop{
     "C13",
     "Cases: node id 1..127; RPDO table: each of 4 channels absent / asynchronous (254/255) / synchronous (type 0..240), valid or invalid COB-ID, distinct or colliding identifiers; mappings of 0..8 fields drawn from two 8-bit, one 16-bit, one 32-bit and one 24-bit-of-32 object and the dummy entries 0002h..0007h with their natural widths, total <= 8 bytes; "
-    "histories of up to 120 ops: RPDO frames with the mapped length or longer and random payloads, near-miss identifiers, SYNCs (DLC 0/1), NMT start/stop/pre-operational and repeated NMT start while OPERATIONAL, local writes, ticks; mode sync-id-rewritten adds SDO writes that move the SYNC identifier 1005h among {80h, 90h, 100h} at run time and frames on the former identifiers (which are then any other identifier). "
+    "histories of up to 120 ops: RPDO frames with the mapped length or longer and random payloads, near-miss identifiers, SYNCs (DLC 0/1), NMT start/stop/pre-operational and repeated NMT start while OPERATIONAL, local writes, ticks; mode sync-id-rewritten adds SDO writes that move the SYNC identifier 1005h among {80h, 90h, 100h} at run time and frames on the former identifiers (which are then any other identifier); mode frame-bursts delivers 1..600, 254..1026 or 65534..65537 frames to one RPDO without a SYNC in between (a synchronous RPDO applies the last one at the next SYNC, exactly once). "
     "Oracle: model dictionary compared with a full storage snapshot after every step (asynchronous: consecutive little-endian fields written at once, dummies skipped by width; synchronous: buffered, applied at the next SYNC exactly once; nothing outside OPERATIONAL or for other identifiers; everything else byte-identical). "
     "Non-trivial: the case has a mapping with >= 2 fields or a dummy, or a synchronous RPDO saw >= 2 SYNCs. Distinct = distinct decoded choice sequence.",
     {Mode{"random", one_case, false, 1000000, 20000000, 0, 0, 300, 500},
-     Mode{"sync-id-rewritten", resync_case, false, 300000, 5000000, 0, 0, 300, 500}},
+     Mode{"sync-id-rewritten", resync_case, false, 300000, 5000000, 0, 0, 300, 500},
+     Mode{"frame-bursts", burst_case, false, 20000, 400000, 0, 0, 200, 300}},
     {"with colliding identifiers the first channel in index order receives the frame", "RPDO identifiers differ from the SYNC identifier of 1005h (there the statements of C13 and C16 contradict each other)", "a SYNC arriving after the node left OPERATIONAL with a buffered frame is not constrained", "frames shorter than the mapped length are not generated (statement silent)"}});
 
 }  // namespace
